@@ -69,6 +69,23 @@ class Table:
         return "".join(out)
 
 
+GENERATED = ["LibErrors.lean", "ResolveGen.lean"]
+
+
+def seed_generated():
+    """A run against another tree works in a private copy of the Lean project whose Generated/ files are only rewritten when
+    extraction succeeds.  Start it from the clean tree's last generation, so that a source the extractors no longer recognise
+    is judged by the model of the clean tree (and the violation search can run) instead of by a stale or missing table."""
+    from . import lean as L
+    src = os.path.join(L.LEAN_SRC, "StepModel", "Generated")
+    if os.path.realpath(src) == os.path.realpath(L.GEN_DIR):
+        return
+    import shutil
+    for f in GENERATED:
+        if os.path.exists(os.path.join(src, f)):
+            shutil.copyfile(os.path.join(src, f), os.path.join(L.GEN_DIR, f))
+
+
 class Case:
     """one input file + what was injected"""
 
